@@ -96,25 +96,50 @@ class DefaultHandler(BaseHandler):
             return last_seq, None
         file_list.sort()
         msg_file_name = file_list[-1]
-        try:
-            with open(msg_path + msg_file_name, 'r') as fh:
-                line = None
-                for line in fh:
-                    pass
-                last = line
-                if line:
-                    if last.startswith('['):
-                        last_seq = eval(last)[1]
-                    elif last.startswith('{'):
-                        last_seq = json.loads(last)['seq']
-        except OSError:
-            LOG.error('Error when reading bgp message files')
-        except Exception as e:
-            LOG.debug(traceback.format_exc())
-            LOG.error(e)
-            sys.exit()
+        # the newest file is empty when the agent stopped right after a rotation,
+        # then the last record is in an older file
+        for file_name in reversed(file_list):
+            try:
+                last_seq = DefaultHandler.get_last_seq(os.path.join(msg_path, file_name))
+            except OSError:
+                LOG.error('Error when reading bgp message files')
+            if last_seq:
+                break
 
         return last_seq, msg_file_name
+
+    @staticmethod
+    def get_last_seq(file_path):
+        """
+        Get the sequence number of the last complete record of one log file. A partial
+        last record (the agent died in the middle of a write) is removed from the file.
+        """
+        last_seq = 0
+        good_end = 0
+        with open(file_path, 'rb+') as fh:
+            while True:
+                line = fh.readline()
+                if not line:
+                    break
+                seq = None
+                if line.endswith(b'\n'):
+                    try:
+                        text = line.decode('utf-8')
+                        if text.startswith('['):
+                            seq = eval(text)[1]
+                        elif text.startswith('{'):
+                            seq = json.loads(text)['seq']
+                    except Exception as e:
+                        LOG.debug(traceback.format_exc())
+                        LOG.error(e)
+                if seq is None:
+                    LOG.error('remove the incomplete record at the end of %s', file_path)
+                    fh.seek(good_end)
+                    fh.truncate()
+                    break
+                last_seq = seq
+                good_end = fh.tell()
+        return last_seq
 
     def write_msg(self, peer, timestamp, msg_type, msg):
         """
